@@ -8,6 +8,11 @@ CHECKS = {
     text="Full proof: the Gallina transcription of merge_results/add_results is proved equal to a union_with form, for which clamped-sum, OR, max-length, order/grouping independence (every permutation and every binary tree), identity and monotonicity are theorems for all record lists; the model is tied to the code by running both on generated record lists and trees (incl. saturating sums, unequal vectors) on every run.",
     note="Trusted: Coq kernel, vm_compute for the correspondence evaluation, std++; the Rust harness and Python differ; BTreeMap/FxHashMap modelled as finite maps, u64 arithmetic written out.  No axioms (Print Assumptions: closed).",
     ref="6/C01"),
+ "C04": dict(
+    technique="Coq proof (byte-level transcription of parse_lcov; per-record simulation lemmas, fold invariant, order-free declarative meaning) + vm_compute correspondence on well-formed and malformed streams",
+    text="Full proof outside one recorded known-finding class: for every well-formed tracefile (any record order, duplicate DA/BRDA, negative counts, BRDA '-'/0/n, leading zeros, LF/CRLF per line, TN/LF/LH/VER/MCDC and unused S/D/F/B keys, names over all bytes but CR/LF) in which no FNDA precedes the FN of its function, the Gallina transcription of parse_lcov returns one record per section whose lines (clamped sums), branch vectors (indexed by branch number, OR of taken>0) and functions (start, executed iff some FNDA is non-zero) are exactly what the records say; the meaning is proved order-free and unique; with branch parsing off no branch data is produced for any byte string; the parser model never panics and never runs out of fuel on any byte string. The model is tied to the code by running both (and the record-level spec, and an independent Python reading) on generated files on every run.",
+    note="Trusted: Coq kernel, vm_compute (correspondence), std++; harness and Python renderer/reference; Peekable::take_while consumption and release-mode wrapping folds modelled by hand; String::from_utf8_lossy not modelled (names compared on valid UTF-8 only). Known finding: FNDA before FN rejects the file. No axioms.",
+    ref="6/C04"),
  "C16": dict(
     technique="Coq proof (induction over the source lines: loop flag recurrence = declarative start..stop region) + vm_compute correspondence with FileFilter::create and the filter application",
     text="Full proof for the decision logic: for every sequence of source lines (each abstracted to the six regex verdicts), every coverage record and every line index inside the file, the line count is removed iff the line matches the line marker or lies in a start(inclusive)..stop(exclusive) region, independently the same for branches; numbers outside the file and all functions are untouched; no option or unreadable source = identity. Tied to the code by running FileFilter::create on generated sources (all marker placements, option subsets, LF/CRLF) and comparing filters and resulting records with the model and with an independent reading of the property.",
